@@ -5,6 +5,9 @@ from ..scen_expr import truncation, expr_nopanic
 from ..scen_readinput import read_input
 
 
+from ._arith import arithmetic
+
+
 def run(ctx):
     selfcheck(ctx)
     n = 3 if ctx.quick else 4
@@ -17,3 +20,4 @@ def run(ctx):
     kernels(ctx)
     truncation(ctx)
     expr_nopanic(ctx)
+    arithmetic(ctx, which=['reminder', 'divide', 'add'] if ctx.quick else None, all_variants=True)
